@@ -33,8 +33,20 @@ def r04a(ctx):
         if delegate:
             rb2, _, _, _ = roots_and_consts(m, q, e1.extract(fe.node, "edits"), zero)
             rb = rb2
-        rt, _, ut, _ = roots_and_consts(m, q, e1.extract(ft.node, "tighten"), zero)
+        rt, _, ut, tdelegate = roots_and_consts(m, q, e1.extract(ft.node, "tighten"), zero)
+        if tdelegate:
+            rt2, _, _, _ = roots_and_consts(m, q, e1.extract(fe.node, "edits"), zero)
+            rt = dict(rt2, **rt)
         n += 1
+        # completeness is not definitiveness: refinement must not be skipped because a part "is complete"
+        skips = [c for c in walk_no_nested(ft.node) if isinstance(c, ast.Call) and isinstance(c.func, ast.Attribute)
+                 and c.func.attr == "is_complete" and self_attr(c.func.value) != "" and dotted(c.func.value) != "self"]
+        for c in skips:
+            ctx.violation("R04a", ft.file, f"{short}.tighten_bounds", c, f"{short}: skips complete parts",
+                          f"{short}.tighten_bounds consults `{norm(c, 40)}` to decide whether to refine a part: is_complete() "
+                          f"only says the *shape* of the part's script is final, not that its cost interval is a single value "
+                          f"(e.g. MultiSetEdit is complete once a matching is chosen), so the compound can answer False on a "
+                          f"non-definitive interval and never converge")
         if short == "EditDistance":
             # matrix based: tighten_bounds must reach the matrix cells it sums
             if "edit_matrix" in rt:
@@ -220,6 +232,46 @@ def r04e(ctx):
                          "wrapper does not have the recognised True/False return structure")
 
 
+def r04f(ctx):
+    m = ctx.model
+    ctx.rule("R04f", "EditDistance's pre-computed upper bound is the cost of the remove-everything / insert-everything script: "
+                     "it sums, over both sequences, the same per-node cost Remove and Insert charge (total_size + penalty)")
+    q = m.need_class("EditDistance")
+    init = m.method(q, "__init__")
+    ub = next((s_ for s_ in walk_no_nested(init.node) if isinstance(s_, ast.Assign) and isinstance(s_.targets[0], ast.Name)
+               and s_.targets[0].id == "cost_upper_bound"), None)
+    if ub is None:
+        ctx.inconclusive("R04f", init.file, "EditDistance.__init__", init.node, "cost_upper_bound", "cost_upper_bound assignment not found")
+        return
+    # per-node cost of the constant edits
+    costs = {}
+    for cname, argname in (("Remove", "to_remove"), ("Insert", "to_insert")):
+        f = m.method(m.need_class(cname), "__init__")
+        c = next((k.value for x in walk_no_nested(f.node) if isinstance(x, ast.Call) for k in x.keywords if k.arg == "cost"), None)
+        costs[cname] = ast.unparse(c).replace(" ", "").replace(argname, "node") if c is not None else None
+    sums = [c for c in ast.walk(ub.value) if isinstance(c, ast.Call) and call_name(c) == "sum" and c.args
+            and isinstance(c.args[0], ast.GeneratorExp)]
+    p = [a.arg for a in init.node.args.args]
+    seqs = {p[3], p[4]} if len(p) > 4 else set()
+    got = {}
+    for c in sums:
+        g = c.args[0]
+        it = dotted(g.generators[0].iter)
+        var = g.generators[0].target.id if isinstance(g.generators[0].target, ast.Name) else None
+        got[it] = ast.unparse(g.elt).replace(" ", "").replace(f"{var}.", "node.").replace("self.penalty", "penalty")
+    top_ok = isinstance(ub.value, ast.BinOp) and isinstance(ub.value.op, ast.Add) and \
+        all(isinstance(x, ast.Call) and call_name(x) == "sum" for x in (ub.value.left, ub.value.right))
+    want = costs["Remove"]
+    if top_ok and set(got) == seqs and all(v == want for v in got.values()) and costs["Insert"] == want:
+        ctx.proved("R04f", init.file, "EditDistance.__init__", ub, "upper bound = worst script",
+                   f"sum over both sequences of `{want}` - exactly what Remove/Insert charge per node")
+    else:
+        ctx.violation("R04f", init.file, "EditDistance.__init__", ub, "upper bound = worst script",
+                      f"cost_upper_bound is `{norm(ub.value, 140)}`, but removing every element and inserting every element "
+                      f"costs the sum over both sequences of `{want}` per node: when elements cannot be paired the true cost "
+                      f"exceeds this 'upper bound', so the interval widens later and does not contain the final cost")
+
+
 def run(ctx):
     m = ctx.model
     cg = CallGraph(m)
@@ -230,5 +282,10 @@ def run(ctx):
     r04c(ctx)
     r04d(ctx)
     r04e(ctx)
+    r04f(ctx)
+    from .c05 import r05c
+    from .c17 import r17b
+    r05c(ctx)     # a candidate / sub-edit taken from a one-shot iterator and then dropped makes the interval unsound
+    r17b(ctx)     # the search (a Bounded object) reports no progress only when exhausted
     ctx.assume("that an interval never widens, always contains the final cost, and that refinement is finite are "
                "statements about runtime numbers and are NOT decided; only the structural necessary conditions are")
